@@ -435,3 +435,58 @@ def CE_eval_local(F, CE, b, known):
                     return ("int", v)
         return tuple(sub(x) if isinstance(x, tuple) else x for x in t)
     return CE.ev(sub(t))
+
+
+@rule("R07.8", props=["C07", "C08"], floor=2, title="the size formulas that set_up_graphs applies to the largest shard are total: no assertion bounds their size argument from above")
+def r07_8(ctx, rr):
+    """try_seed calls set_up_graphs(num_keys, max_shard) before the balance test, so max_shard has no upper bound
+    there (just below a sharding threshold it exceeds the target size in half of the attempts; with unbalanced
+    shards by any amount). A `debug_assert!(n <= K)` in a helper applied to it turns a legitimate attempt into a
+    panic in debug builds."""
+    F = ctx.F()
+    sg = [b for b in F.fns() if b.name == "set_up_graphs" and b.file.endswith("func/shard_edge.rs") and not is_derived(b)]
+    if len(sg) < 2:
+        raise AnchorMissing("expected the set_up_graphs implementations")
+    helpers = {}
+    for b in sg:
+        if len(b.params) < 3:
+            continue
+        ms = b.params[2]["id"]        # (self, n, max_shard)
+        for n in walk(b.body):
+            if n.get("k") == "Call" and n.get("cc") == "sux":
+                for pos, a in enumerate(n["args"]):
+                    if a.get("k") == "Path" and a.get("res") == "local" and a.get("id") == ms:
+                        c = F.callee(n)
+                        if c:
+                            helpers.setdefault(strip_generics(c), set()).add(pos)
+    if not helpers:
+        raise AnchorMissing("set_up_graphs passes max_shard to no helper")
+    for path, poss in sorted(helpers.items()):
+        hb = [b for b in F.fns() if strip_generics(b.path) == path]
+        if not hb:
+            continue
+        hb = hb[0]
+        for pos in sorted(poss):
+            pid = hb.params[pos]["id"]
+            bad = []
+            for n in walk(hb.body):
+                if n.get("k") == "If" and diverges(F, n["th"]):
+                    # the failing condition of an assertion: `!(n <= K)`, i.e. an upper bound on the parameter
+                    c = n["c"]
+                    neg = False
+                    while c.get("k") == "Unary" and c.get("op") == "!":
+                        c = c["e"]
+                        neg = not neg
+                    if c.get("k") == "Binary" and c["op"] in ("<", "<=", ">", ">="):
+                        lhs_is = c["l"].get("k") == "Path" and c["l"].get("id") == pid
+                        rhs_is = c["r"].get("k") == "Path" and c["r"].get("id") == pid
+                        upper_pass = (lhs_is and c["op"] in ("<", "<=")) or (rhs_is and c["op"] in (">", ">="))
+                        upper_fail = (lhs_is and c["op"] in (">", ">=")) or (rhs_is and c["op"] in ("<", "<="))
+                        # diverges when the condition holds: pass-condition is its negation
+                        if (neg and upper_pass) or (not neg and upper_fail):
+                            bad.append(n)
+            rr.instances += 1
+            key = "%s:total-in-shard-size" % short_fn(hb.key)
+            rr.ob(not bad, key=key, sample={"helper": hb.key, "argument": hb.params[pos].get("name")})
+            if bad:
+                rr.violate(key, "%s, applied by set_up_graphs to the size of the largest shard, asserts an upper bound on that argument (`%s`): the largest shard is not bounded at that point (it exceeds the target size for key sets just below a sharding threshold, and by any amount in attempts later discarded as unbalanced), so the build panics instead of returning a function" % (hb.key, show(F, bad[0]["c"])[:80]), F.loc(bad[0]))
